@@ -2,6 +2,7 @@
 package c10
 
 import (
+	crand "crypto/rand"
 	"bytes"
 	"context"
 	"errors"
@@ -196,7 +197,7 @@ func TestProp_Rotation(t *testing.T) {
 					sender = senderRec.actor
 				}
 				// inner request
-				rp.Inner = rapid.SampledFrom([]string{"fresh", "fresh", "fresh", "fresh", "replay", "existing-key", "token-nonce", "expired", "bad-signature"}).Draw(t, "inner")
+				rp.Inner = rapid.SampledFrom([]string{"fresh", "fresh", "fresh", "fresh", "replay", "existing-key", "token-nonce", "token-shaped-nonce", "expired", "bad-signature"}).Draw(t, "inner")
 				counter++
 				nw := vkit.NewActor(fmt.Sprintf("N%d", counter))
 				inner := nw.Request()
@@ -228,6 +229,18 @@ func TestProp_Rotation(t *testing.T) {
 					}
 					nw = vkit.NewActor(nw.Name, nodeenrollment.WithActivationToken(tok))
 					inner = nw.Request(nodeenrollment.WithActivationToken(tok))
+				case "token-shaped-nonce":
+					// a nonce that is not a plain 32-byte nonce: the library reads any other
+					// length as a marshaled activation-token nonce (of whatever part sizes,
+					// with or without a token of that id in storage)
+					info := nw.Info()
+					nl := rapid.SampledFrom([]int{0, 1, 8, 16, 32}).Draw(t, "tokenNonceLen")
+					hl := rapid.SampledFrom([]int{0, 1, 8, 16, 32}).Draw(t, "tokenHmacLen")
+					info.Nonce, _ = proto.Marshal(&types.ServerLedActivationTokenNonce{Nonce: rnd(nl), HmacKeyBytes: rnd(hl)})
+					if len(info.Nonce) == 0 || len(info.Nonce) == nodeenrollment.NonceSize {
+						info.Nonce = append(info.Nonce, 0x10, 0x01) // keep it non-empty and not 32 bytes long
+					}
+					inner = vkit.Sign(info, nw.CertPriv)
 				case "expired":
 					info := nw.Info()
 					info.NotBefore, info.NotAfter = vkit.TS(time.Now().Add(-48*time.Hour)), vkit.TS(time.Now().Add(-24*time.Hour))
@@ -315,7 +328,7 @@ func TestProp_Rotation(t *testing.T) {
 				if len(lookup) >= 2 {
 					flags["several-records-under-node-id"] = true
 				}
-				if rp.Inner == "replay" || rp.Inner == "token-nonce" {
+				if rp.Inner == "replay" || rp.Inner == "token-nonce" || rp.Inner == "token-shaped-nonce" {
 					flags[rp.Inner] = true
 				}
 				detail := map[string]any{"request": rp, "history": hist, "storage_wrapper": wrapper, "lookup_by_node_id": nodeIDLookup}
@@ -470,4 +483,10 @@ func currentOnly(a *vkit.Actor) *types.NodeCredentials {
 	c := proto.Clone(a.Creds).(*types.NodeCredentials)
 	c.PreviousEncryptionKey = nil
 	return c
+}
+
+func rnd(n int) []byte {
+	b := make([]byte, n)
+	_, _ = crand.Read(b)
+	return b
 }
